@@ -16,7 +16,7 @@ meta = {"property": pid, "name": name, "repo_head": sh("git -C /repo rev-parse -
 r = sh(f"git -C {WT} apply {src}/patch.diff")
 meta["patch_applies"] = r.returncode == 0
 if r.returncode == 0:
-    c = sh(f"cd /verif && IGRIS_REPO={WT} ./check {pid} --tier quick 2>/dev/null", timeout=3000)
+    c = sh(f"cd /verif && IGRIS_REPO={WT} ./check {pid} --tier quick --evidence {WT}/.evidence.json 2>/dev/null", timeout=3000)
     meta["check_exit"] = c.returncode
     meta["lines"] = [l[:300] for l in c.stdout.splitlines() if l.startswith(("VIOLATION", "HARNESS-ERROR", "KNOWN", pid))][-8:]
     meta["silent"] = c.returncode == 0 and not any(l.startswith("VIOLATION") for l in c.stdout.splitlines())
